@@ -76,25 +76,27 @@ def main(ck):
         arb = 'InputSpec accepts it' if s[0] == 'accept' else 'InputSpec rejects it (%s)' % s[1]
         if all_rej or (len(set(kinds.values())) == 1 and not all_acc):
             continue   # the same failure in every form (its error class is C19's business)
-        if all_acc:
-            groups = []   # partition the forms by equal results
-            for f in forms:
-                for g in groups:
-                    if results_equal(types, o['run'][g[0]], o['run'][f]):
-                        g.append(f); break
+        # pairwise comparison: one finding per pair of forms that behave differently
+        def same(f, g):
+            if kinds[f] != kinds[g]:
+                return False
+            return kinds[f] != 'accept' or results_equal(types, o['run'][f], o['run'][g])
+        def short(f):
+            k = kinds[f]
+            return k if k in ('accept', 'reject') else ':'.join(k.split(':')[:2])
+        for i, f in enumerate(forms):
+            for g in forms[i + 1:]:
+                if same(f, g):
+                    continue
+                if kinds[f] == 'accept' and kinds[g] == 'accept':
+                    key = '%s:%s:%s!=%s:results-differ' % (c['type'], c['vclass'], f, g)
+                    what = 'the same cells give different results as %s and as %s input for %s: %s vs %s' % (f, g, subj, o['run'][f][2][:2], o['run'][g][2][:2])
                 else:
-                    groups.append([f])
-            if len(groups) == 1:
-                continue
-            key = '%s:%s:results-differ:%s' % (c['type'], c['vclass'], '|'.join('+'.join(g) for g in groups))
-            what = 'the same cells give different results in different input forms for %s: %s' % (
-                subj, '; '.join('%s -> %s' % ('+'.join(g), o['run'][g[0]][2][:2]) for g in groups))
-        else:
-            key = '%s:%s:outcomes-differ:%s' % (c['type'], c['vclass'], ','.join('%s=%s' % (f, kinds[f].split(':')[0] + (':' + kinds[f].split(':')[1] if kinds[f].startswith(('late', 'raw')) else '')) for f in forms))
-            what = 'the same cells are accepted in some input forms and rejected in others for %s: %s; %s' % (subj, kinds, arb)
-        ck.violation(key, {'case': ic.strip_case(c), 'type': c['type'], 'value_class': c['vclass'], 'role': c.get('role'),
-                           'outcomes': {f: (kinds[f], o['run'][f][2][:3] if kinds[f] == 'accept' else [str(x)[:200] for x in o['run'][f][1:3]]) for f in forms},
-                           'inputspec': list(s) if s[0] == 'reject' else ['accept']}, what)
+                    key = '%s:%s:%s!=%s:%s/%s' % (c['type'], c['vclass'], f, g, short(f), short(g))
+                    what = 'the same cells are treated differently as %s (%s) and as %s (%s) input for %s; %s' % (f, kinds[f], g, kinds[g], subj, arb)
+                ck.violation(key, {'case': ic.strip_case(c), 'type': c['type'], 'value_class': c['vclass'], 'role': c.get('role'), 'forms': [f, g],
+                                   'outcomes': {x: (kinds[x], o['run'][x][2][:3] if kinds[x] == 'accept' else [str(y)[:200] for y in o['run'][x][1:3]]) for x in (f, g)},
+                                   'inputspec': list(s) if s[0] == 'reject' else ['accept']}, what)
     for c, s, o in list(zip(cases, specs, outs))[:3]:
         ck.sample({'table': ic.strip_case(c), 'outcomes': {f: ic.engine_kind(x) for f, x in o['run'].items()}})
     ck.note('outcome_histogram', hist)
